@@ -161,8 +161,10 @@ Definition convert (din dout : vd) (same : bool) (ntz : Z) : vd * outcome V :=
               if q_d5 Q
               then (set_dims V o3 nt 1 (if Nat.ltb (rows V o3) (cols V o3) then rows V o3
                                         else cols V o3) (freqs V o3), ok V)
-              else resize o3 ntz 1 (Z.of_nat (if Nat.ltb (rows V o3) (cols V o3) then rows V o3
-                                              else cols V o3)) (Z.of_nat (freqs V o3))
+              else (* vd_type = newtype; return vnadata_resize(out, newtype, 1, ports, frequencies):
+                      the assignment is overwritten by the resize, which never reads the old type *)
+                   resize o2 ntz 1 (Z.of_nat (if Nat.ltb (rows V o2) (cols V o2) then rows V o2
+                                              else cols V o2)) (Z.of_nat (freqs V o2))
             | _, _ => (o3, ok V)
             end
           else (dst, fault V)
